@@ -213,7 +213,7 @@ Lemma cs_disjoint f g s : (forall q, f q = true -> g q = true -> False) ->
   cs f s + cs g s <= cs (fun _ => true) s.
 Proof.
   intros Hd. induction s as [|q s IH]; [reflexivity|]. rewrite !cs_cons.
-  specialize (Hd q). destruct (f q), (g q); try lia. exfalso. auto.
+  specialize (Hd q). destruct (f q), (g q); try lia; exfalso; auto.
 Qed.
 
 Lemma count_disjoint f g b : (forall q, f q = true -> g q = true -> False) ->
